@@ -19,7 +19,7 @@ SHRINK_LISTS = [('items',), ('items', '*', 'inner', '*'), ('trailing',),
 EXPECTED_PROBES = ['inside_fragmented', 'has_trailing', 'cut_inside_violation',
                    'violation_while_closing', 'offer_declined',
                    'empty_first_fragment', 'ctl_before_new_data_frame',
-                   'big_nonfinal_fragment']
+                   'big_nonfinal_fragment', 'keepalive_and_slow_handlers']
 ASSUMPTIONS = ['close codes 1012-1014 and >= 5000 and RSV1 on control frames '
                'under compression are not generated (the property does not '
                'quantify over them)']
@@ -38,8 +38,8 @@ MARK = b'TRAILING-MARKER-'
 
 def plan(tier):
     if tier == 'quick':
-        return [('headers', 65536), ('seeded', 6000)]
-    return [('headers', 65536), ('seeded', 300000)]
+        return [('headers', 65536), ('seeded', 6000), ('busy', 1500)]
+    return [('headers', 65536), ('seeded', 300000), ('busy', 60000)]
 
 
 # ---------------------------------------------------------------------------
@@ -111,6 +111,16 @@ def make_case(family, i, rng, tier):
     cls = CLASSES[i % len(CLASSES)]
     items = ST.make_items(rng, 4) if rng.random() < 0.8 else []
     case = {'items': items, 'class': cls, 'vseed': rng.getrandbits(32)}
+    if family == 'busy':
+        # keep-alive on, and an application whose handlers take time: an
+        # automatic Ping (or a Poll) may become due while the application
+        # handles the ProtocolError event
+        case['busy'] = {'rate': rng.choice([0.2, 0.5, 1.3]),
+                        'poll': rng.choice([0.1, 0.1, 5]),
+                        'sleep_us': rng.choice([300001, 700001, 2000001]),
+                        'at': rng.choice([['protocol_error'],
+                                          ['protocol_error', 'text', 'binary',
+                                           'ping', 'pong']])}
     inside = False
     if cls in ('new_data_inside_fragmented', 'bad_utf8_later_fragment',
                'bad_utf8_split_across', 'bad_utf8_big_nonfinal'):
@@ -382,9 +392,21 @@ def build(case):
     if case.get('app_close'):
         app = [{'when': {'name': 'ready'},
                 'do': [{'op': 'close', 'code': 1000, 'reason': 'app'}]}]
-    sc = ST.stream_scenario(case, enc, [S.eof(after=1000000)],
+    connect = {'ping_rate': 0}
+    busy = case.get('busy')
+    if busy:
+        # (no close timeout: with slow handlers it could end the connection
+        # before the violating frame is read)
+        connect = {'ping_rate': busy['rate'], 'poll': busy['poll'],
+                   'close_timeout': None}
+        app = list(app or []) + [
+            {'when': {'name': n}, 'do': [{'op': 'sleep',
+                                          'us': busy['sleep_us']}]}
+            for n in busy['at']]
+    sc = ST.stream_scenario(case, enc, [S.eof(after=1000000 if not busy
+                                              else 5000000)],
                             extra_headers=extra, ws=ws, app=app,
-                            connect={'ping_rate': 0})
+                            connect=connect)
     enc.expected = prefix_expected
     return sc, enc, ('bad',)
 
@@ -454,6 +476,28 @@ def execute(case):
             closes = [f for f in wire.frames if f.opcode == peer.OP_CLOSE]
             others = [f for f in wire.frames
                       if f.opcode not in (peer.OP_PONG, peer.OP_CLOSE)]
+            perrs = [e for e in tr.events if e.name == 'protocol_error']
+            if case.get('busy') and perrs:
+                # automatic Pings are legitimate until the violation has been
+                # reported; afterwards only the one Close may be written
+                res.stats['probe:keepalive_and_slow_handlers'] += 1
+                wseq = {}
+                pos = 0
+                for seq, now, data in tr.world.socks[-1].out:
+                    wseq[pos] = seq
+                    pos += len(data)
+                late = [f for f in wire.frames
+                        if wseq.get(f.start, 0) > perrs[0].seq and
+                        f.opcode != peer.OP_CLOSE]
+                others = [f for f in others if not (
+                    f.opcode == peer.OP_PING and
+                    wseq.get(f.start, 0) < perrs[0].seq)]
+                if late:
+                    res.bad('C04/%s/frame_written_after_protocol_error' % tag,
+                            'after the ProtocolError event was yielded the '
+                            'client wrote %r' % ([f.summary()['op']
+                                                  for f in late],))
+                    others = [f for f in others if f not in late]
             if pongs != exp_pongs or others or len(closes) > 1 or \
                     wire.incomplete:
                 res.bad('C04/%s/wire_after_violation' % tag,
